@@ -1403,7 +1403,7 @@ func (fx *FuncCtx) unchangedTerm(now, pre *State, except ...string) string {
 	}
 	sort.Strings(names)
 	for _, c := range names {
-		if strings.HasPrefix(c, "G$rd_pos") || strings.HasPrefix(c, "G$it_") || strings.HasPrefix(c, "G$put_") || strings.HasPrefix(c, "G$get_") || strings.HasPrefix(c, "G$br_src") || strings.HasPrefix(c, "G$hdr_") || strings.HasPrefix(c, "RV$") {
+		if strings.HasPrefix(c, "G$rd_pos") || strings.HasPrefix(c, "G$it_") || strings.HasPrefix(c, "G$put_") || strings.HasPrefix(c, "G$get_") || strings.HasPrefix(c, "G$part_") || strings.HasPrefix(c, "G$br_src") || strings.HasPrefix(c, "G$hdr_") || strings.HasPrefix(c, "RV$") {
 			continue // stream cursors, iterators, the ghost call log and iteration bookkeeping are not stored state
 		}
 		t := now.Heap[c]
